@@ -123,10 +123,15 @@ fn case(cx: &mut CaseCtx, input: Input, cfg: &GenCfg) -> CaseResult {
             let state = compile_strings(&texts, None);
             let diags = diagnostics_of(state, &Default::default());
             let errors = error_codes(&diags);
+            // (other violations may be reported in an earlier phase and stop the compilation there:
+            // E010 is demanded only when the collision is the sole defect)
+            let sole = report.rules().iter().all(|r| *r == "R-NAME-MODULE-DEFINITION");
+            cx.label_if(sole, "sole:R-NAME-MODULE-DEFINITION");
             check!(
-                errors.iter().any(|c| c == "E010"),
+                if sole { errors.iter().any(|c| c == "E010") } else { !errors.is_empty() },
                 "accept-mismatch/rule=R-NAME-MODULE-DEFINITION",
-                "a definition has the same scoped name as a module, but no E010 is reported (codes {errors:?})\n--- source ---\n{}",
+                "a definition has the same scoped name as a module, but {} (codes {errors:?})\n--- source ---\n{}",
+                if sole { "no E010 is reported" } else { "the program is accepted" },
                 texts.join("\n=====\n")
             );
             return Ok(());
